@@ -113,6 +113,17 @@ fn main() {
       println!("strbif cases={} failures={}", cases, failures.len());
       for f in failures { println!("FAIL {}", f); }
     }
+    Some("recognize") => {
+      // recognize <file>...: dmntk_recognizer::build on the file's text under catch_unwind
+      for f in &args[2..] {
+        let text = std::fs::read_to_string(f).unwrap_or_default();
+        let r = std::panic::catch_unwind(move || match dmntk_recognizer::build(&text) {
+          Ok(dt) => format!("OK hit_policy={:?} inputs={} outputs={} rules={}", dt.hit_policy, dt.input_clauses.len(), dt.output_clauses.len(), dt.rules.len()),
+          Err(e) => format!("ERROR {}", e),
+        });
+        println!("{} => {}", f, r.unwrap_or("PANIC".to_string()));
+      }
+    }
     Some("scopes") => {
       // BOUNDED stand-in (not a proof): every stack of up to <max> contexts in which each context either binds `x` (to its
       // level) and/or `y z` or not: Scope::get_entry and Scope::search_deep must return the innermost binding, and
